@@ -27,11 +27,12 @@ Section Spec.
 
   (* clause 1 for one sample x, against the packets pushed, in two parts.
      sample_run: x is made of a non-empty run of pushed packets with consecutive
-     sequence numbers, the first a partition head, and its bytes are their
-     depacketized payloads in order. *)
+     sequence numbers (fewer than 2^16 of them), the first a partition head, and
+     its bytes are their depacketized payloads in order. *)
   Definition sample_run (pushed : list packet) (x : sample) : Prop :=
     exists h hp rest ds,
       h < 65536 /\
+      N.of_nat (List.length (hp :: rest)) < 65536 /\
       s_pkts x = hp :: rest /\
       Forall2 (fun k p => In p pushed /\ p_seq p = k) (keys_from h (List.length (hp :: rest))) (hp :: rest) /\
       is_head (p_payload hp) = true /\
